@@ -1,20 +1,21 @@
+\* = q_c + payload level, all three protections of the other endpoint level
 SPECIFICATION Spec
 CONSTANTS
-  Senders = {1, 3}
+  Senders = {1}
   Receivers = {2}
-  Levels = {"payload", "submsg", "msg"}
+  Levels = {"payload", "submsg"}
   Kinds = {"gmac", "gcm"}
   OAs = {TRUE, FALSE}
   K256s = {TRUE, FALSE}
   Dirs = {"w2r", "r2w"}
   Others = {"same", "none", "diff"}
   Astray = TRUE
-  Eps2 = {}
+  Eps2 = {2}
   LooseList = FALSE
-  GenS = 0
+  GenS = 1
   LooseKid = FALSE
-  GenK = 4
-  GenC = 1
+  GenK = 40
+  GenC = 6
 VIEW View
 INVARIANT Inv_TamperedNeverDecodes
 INVARIANT Inv_NoKeyNoData
